@@ -184,6 +184,10 @@ impl<'a> Tokenizer<'a> {
     /// Returned errors:
     fn read_nondecimal_data(&mut self, radix: u8) -> Result<Token<'a>, ErrorCode> {
         let options = lexical_core::ParseIntegerOptions::new();
+        // <NONDECIMAL NUMERIC PROGRAM DATA> has no sign
+        if let Some(b'+' | b'-') = self.chars.as_slice().first() {
+            return Err(ErrorCode::NumericDataError);
+        }
         let (n, len) = match radix {
             b'H' | b'h' => {
                 const FORMAT: u128 = lexical_core::NumberFormatBuilder::from_radix(16);
@@ -290,13 +294,17 @@ impl<'a> Tokenizer<'a> {
                 return Ok(Token::ArbitraryBlockData(u8str));
             }
 
-            let payload_len = lexical_core::parse::<usize>(
-                self.chars
-                    .as_slice()
-                    .get(..len as usize)
-                    .ok_or(ErrorCode::InvalidBlockData)?,
-            )
-            .map_err(|_| ErrorCode::InvalidBlockData)?;
+            let header = self
+                .chars
+                .as_slice()
+                .get(..len as usize)
+                .ok_or(ErrorCode::InvalidBlockData)?;
+            // Only digits are allowed in the length field
+            if !header.iter().all(u8::is_ascii_digit) {
+                return Err(ErrorCode::InvalidBlockData);
+            }
+            let payload_len =
+                lexical_core::parse::<usize>(header).map_err(|_| ErrorCode::InvalidBlockData)?;
             self.chars.nth(len as usize - 1).unwrap();
             let u8str = self
                 .chars
